@@ -62,7 +62,7 @@ def run_variant(case, order, ck, sp, style, fn_cache):
     if key not in fn_cache:
         fn_cache[key] = gc.build_function(case, order, ck, sp, kinds=kinds)
     fn, ns, _ = fn_cache[key]
-    ns["__ret"][0] = np.zeros(tuple(case["ret"]["shape"])) if case["ret"] else None
+    ns["__ret"][0] = gc.make_array(case["ret"]["shape"], bool(case.get("npint_shapes"))) if case["ret"] else None
     args, kwargs = gc.call_args(case, order, style, kinds=kinds)
     try:
         fn(*args, **kwargs)
@@ -166,6 +166,8 @@ def run(ctx):
         if len(vo) > 1:
             for _ in range(2):
                 extra.append(vo[data.draw(st.integers(0, len(vo) - 1))])
+        # (drawn last: the arrays report their sizes as NumPy integer scalars instead of ints)
+        case["npint_shapes"] = data.draw(st.sampled_from([False, False, True]))
         check_case(ctx, case, extra)
 
     ctx.hyp(cases, max_examples=ctx.n(450, 2500))
